@@ -87,4 +87,70 @@ def wfBedFile (file : ByteArray) : List String :=
   | .error e => [s!"WF bad {e}"]
   | .ok r => [s!"WF ok sections={r.1} entries={r.2}"]
 
+/-- `get_block_entries` over a `Src`, either byte order (the little-endian case is `BBI.bedBlock`, about which
+    `bed_query_bytes` / `checked_bed_query` speak): records until fewer than 12 bytes remain, `(0,0)` = padding
+    ⇒ invalid file, inclusive filter, all records on the queried chromosome. -/
+def bedBlockSrc (e : Endian) (s : Src) (b : Block) (chrom qs qe : Nat) : Except String (List (Nat × Nat × List Nat)) :=
+  let stop := b.offset + b.size
+  let rec go (fuel pos : Nat) (acc : List (Nat × Nat × Nat × List Nat)) : Except String (List (Nat × Nat × Nat × List Nat)) :=
+    match fuel with
+    | 0 => .error "OutOfFuel"
+    | fuel + 1 =>
+      if pos + 12 > stop then .ok acc.reverse else
+      let c := u32 e s pos
+      let st := u32 e s (pos + 4)
+      let en := u32 e s (pos + 8)
+      if st = 0 ∧ en = 0 then .error "InvalidFile" else
+      let restLen := ((List.range (stop - (pos + 12))).takeWhile fun i => byte s (pos + 12 + i) ≠ 0).length
+      let rest := (List.range restLen).map fun i => byte s (pos + 12 + i)
+      go fuel (pos + 12 + restLen + 1) ((c, st, en, rest) :: acc)
+  match go (b.size + 1) b.offset [] with
+  | .error m => .error m
+  | .ok recs =>
+    if recs.all (fun r => r.1 == chrom) then
+      .ok ((recs.filter fun r => decide (r.2.2.1 ≥ qs) && decide (r.2.1 ≤ qe)).map fun r => (r.2.1, r.2.2.1, r.2.2.2))
+    else .error "ChromAssert"
+
+def readBedFile (file : ByteArray) (c : Case) : List String :=
+  let im := mkImage file c
+  let s0 : Src := ⟨file.size, fun i => file.get! i⟩
+  match readHeader s0 with
+  | .error e => [s!"OPEN err {errText' e}"]
+  | .ok h =>
+    match readChroms h s0 with
+    | .error e => [s!"OPEN err {errText' e}"]
+    | .ok chroms =>
+      let sorted := chroms.toArray.qsort (fun a b => a.id < b.id) |>.toList
+      let chromLine := "CHROMS" ++ String.join (sorted.map fun ch =>
+        s!" {String.ofList (ch.name.map fun b => Char.ofNat b.toNat)}:{ch.id}:{ch.length}")
+      let zoomLine := "ZOOMS" ++ String.join (h.zooms.map fun z => s!" {z.reduction}")
+      let nlb := nat (c.opt "nonleaf" "24")
+      let answers := (c.records "Q").zipIdx.map fun (q, qi) =>
+        let name := (nameBytes (q.getD 2 "")).map UInt8.ofNat
+        let qs := nat (q.getD 3 "")
+        let qe := nat (q.getD 4 "")
+        match q.getD 1 "" with
+        | "iv" =>
+          match chroms.find? (·.name = name) with
+          | none => s!"A {qi} err InvalidChromosome"
+          | some ch =>
+            if h.fullIndexOffset + 48 > file.size then s!"A {qi} err Truncated" else
+            if u32 h.endian s0 h.fullIndexOffset ≠ CIR_TREE_MAGIC then s!"A {qi} err UnknownMagic" else
+            match searchCir h.endian s0 nlb ch.id qs qe (file.size + 1) [h.fullIndexOffset + 48] [] with
+            | .error e => s!"A {qi} err {errText' e}"
+            | .ok blocks =>
+              let rec go : List Block → Except String (List (Nat × Nat × List Nat))
+                | [] => .ok []
+                | b :: bs =>
+                  match bedBlockSrc h.endian im.src (im.block b) ch.id qs qe with
+                  | .error e => .error e
+                  | .ok a => match go bs with
+                    | .error e => .error e
+                    | .ok r => .ok (a ++ r)
+              match go blocks with
+              | .error e => s!"A {qi} err {e}"
+              | .ok vs => s!"A {qi} ok" ++ String.join (vs.map fun v => s!" {v.1}:{v.2.1}:{hex v.2.2}")
+        | _ => s!"A {qi} skip"
+      ["OPEN ok", chromLine, zoomLine] ++ answers
+
 end Drv
